@@ -337,62 +337,76 @@ def r_mask(ctx):
                 stores.append((nd, d, tgt, f.term(nd.stmt.value, nd)))
     verdict_stores = [s for s in stores if s[3][0] == 'call' and s[3][1][0] == 'attr' and s[3][1][2] == 'valid'
                       and s[3][1][1] == ('v', 'bio_filter', 'P')]
-    if len(verdict_stores) != 1:
-        raise AnalysisError("rule R-MASK lost its anchor: %d stores of bio_filter.valid(...) in find_vertices"
-                            % len(verdict_stores))
-    nd, d, tgt, val = verdict_stores[0]
-    mask_name = d.name
-    # allocation
-    allocs = [TermBuilder(f, x.node).def_term(x.id) for x in f.defs if x.name == mask_name and x.kind == 'assign']
-    rows = [mask_alloc(a) for a in allocs if a is not None]
-    run.check(len(rows) == 1 and rows[0] is not None and is_pow4k(rows[0], K), 'R-MASK', f, 'mask-size', nd.lineno,
-              'mask allocated with 4^K entries',
-              'the mask is allocated with %s entries, not 4^observed_length' % [show(r) if r else None for r in rows],
-              inputs='every observed length')
-    # loop range
-    if not nd.loops:
-        raise AnalysisError("R-MASK: verdict store outside a loop")
-    loop = f.nodes[nd.loops[-1]]
-    it = f.term(loop.stmt.iter, loop)
-    from ..ctx import loop_vars
-    full, i = False, None
-    for name_, t in loop_vars(f, loop).items():
-        if t is None:
-            continue
-        # index over the mask itself (range(len(mask)) / enumerate(mask)), or range(4^K)
-        if t[0] == 'idx' and ((t[1][0] == 'v' and t[1][1] == mask_name) or t[1] in allocs):
-            full, i = True, t
-        elif t[0] == 'iter' and is_call(t[1], 'builtins.range') and len(t[1][2]) == 1 and is_pow4k(t[1][2][0], K):
-            full, i = True, t
-        elif t[0] == 'iter' and is_call(t[1], 'builtins.range') and len(t[1][2]) == 1 and t[1][2][0][0] == 'attr' and \
-                t[1][2][0][2] == 'size' and ((t[1][2][0][1][0] == 'v' and t[1][2][0][1][1] == mask_name) or t[1][2][0][1] in allocs):
-            full, i = True, t
-        elif i is None and t[0] in ('iter', 'idx'):
-            i = t
-    partial = False
-    if not full and is_call(it, 'builtins.range'):
-        # a recognised partial range: explicit start, or a stop that is the full count minus something
-        if len(it[2]) >= 2 and it[2][0] != ('c', 0):
-            partial = True
-        stop = it[2][-1] if len(it[2]) <= 2 else it[2][1]
-        if stop[0] == 'bin' and stop[1] == '-' and stop[3][0] == 'c':
-            partial = True
-    if not full and not partial:
-        run.undecided('R-MASK', f, 'loop-covers-all-indices', loop.lineno, 'loop range %s not recognised' % show(it)[:60])
+    if not verdict_stores:
+        raise AnalysisError("rule R-MASK lost its anchor: no store of bio_filter.valid(...) in find_vertices")
+    # every execution fills the mask: the discovery loops together cover all cases (one unconditional loop, or one per
+    # arm of a single test such as `if verbose`)
+    cover = [frozenset((a, p) for a, p in ctx.conds(f, f.nodes[s[0].loops[-1]])) for s in verdict_stores if s[0].loops]
+    covered = any(not c for c in cover) or any(len(a) == 1 and len(b) == 1 and next(iter(a))[0] == next(iter(b))[0] and
+                                               next(iter(a))[1] != next(iter(b))[1] for a in cover for b in cover)
+    if not covered:
+        only = sorted({show(a)[:30] + ('' if p else ' is false') for c in cover for a, p in c})
+        one_sided = len(cover) == 1 and len(cover[0]) == 1
+        (run.refute if one_sided else run.undecided)(
+            'R-MASK', f, 'mask-filled-on-every-path', verdict_stores[0][0].lineno,
+            'the discovery loop only runs when %s: on the other path the mask stays all-zero whatever the filter accepts' % only,
+            **({'inputs': 'calls on the other arm of that test'} if one_sided else {}))
     else:
-      run.check(full, 'R-MASK', f, 'loop-covers-all-indices', loop.lineno, 'loop ranges over every index of the mask',
-              'the discovery loop ranges over %s, not over all 4^K indices' % show(it),
-              inputs='the k-mers the loop skips')
-    idx_ok = tgt[0] == 'sub' and tgt[2] == i
-    run.check(idx_ok, 'R-MASK', f, 'store-index', nd.lineno, 'mask[i] is stored for the loop index i',
-              'the verdict is stored at %s, not at the loop index' % show(tgt), inputs='every k-mer')
-    arg = val[2][0] if val[2] else (val[3][0][1] if val[3] else None)
-    ok = arg is not None and call_name(arg) and call_name(arg).endswith('.number_to_dna') \
-        and strip_int(call_arg(arg, 0, 'decimal_number')) == i and call_arg(arg, 1, 'dna_length') == K
-    run.check(bool(ok), 'R-MASK', f, 'verdict-on-own-kmer', nd.lineno, 'verdict is taken on number_to_dna(i, K)',
-              'the filter judges %s, not the k-mer of the index being stored' % (show(arg) if arg else None),
-              inputs='every k-mer')
-    others = [s for s in stores if s[1].name == mask_name and s is not verdict_stores[0]]
+        run.ok('R-MASK', f, 'mask-filled-on-every-path', verdict_stores[0][0].lineno, 'a discovery loop runs on every path')
+    mask_name = verdict_stores[0][1].name
+    for nd, d, tgt, val in verdict_stores:
+        # allocation
+        allocs = [TermBuilder(f, x.node).def_term(x.id) for x in f.defs if x.name == mask_name and x.kind == 'assign']
+        rows = [mask_alloc(a) for a in allocs if a is not None]
+        run.check(len(rows) == 1 and rows[0] is not None and is_pow4k(rows[0], K), 'R-MASK', f, 'mask-size', nd.lineno,
+                  'mask allocated with 4^K entries',
+                  'the mask is allocated with %s entries, not 4^observed_length' % [show(r) if r else None for r in rows],
+                  inputs='every observed length')
+        # loop range
+        if not nd.loops:
+            raise AnalysisError("R-MASK: verdict store outside a loop")
+        loop = f.nodes[nd.loops[-1]]
+        it = f.term(loop.stmt.iter, loop)
+        from ..ctx import loop_vars
+        full, i = False, None
+        for name_, t in loop_vars(f, loop).items():
+            if t is None:
+                continue
+            # index over the mask itself (range(len(mask)) / enumerate(mask)), or range(4^K)
+            if t[0] == 'idx' and ((t[1][0] == 'v' and t[1][1] == mask_name) or t[1] in allocs):
+                full, i = True, t
+            elif t[0] == 'iter' and is_call(t[1], 'builtins.range') and len(t[1][2]) == 1 and is_pow4k(t[1][2][0], K):
+                full, i = True, t
+            elif t[0] == 'iter' and is_call(t[1], 'builtins.range') and len(t[1][2]) == 1 and t[1][2][0][0] == 'attr' and \
+                    t[1][2][0][2] == 'size' and ((t[1][2][0][1][0] == 'v' and t[1][2][0][1][1] == mask_name) or t[1][2][0][1] in allocs):
+                full, i = True, t
+            elif i is None and t[0] in ('iter', 'idx'):
+                i = t
+        partial = False
+        if not full and is_call(it, 'builtins.range'):
+            # a recognised partial range: explicit start, or a stop that is the full count minus something
+            if len(it[2]) >= 2 and it[2][0] != ('c', 0):
+                partial = True
+            stop = it[2][-1] if len(it[2]) <= 2 else it[2][1]
+            if stop[0] == 'bin' and stop[1] == '-' and stop[3][0] == 'c':
+                partial = True
+        if not full and not partial:
+            run.undecided('R-MASK', f, 'loop-covers-all-indices', loop.lineno, 'loop range %s not recognised' % show(it)[:60])
+        else:
+          run.check(full, 'R-MASK', f, 'loop-covers-all-indices', loop.lineno, 'loop ranges over every index of the mask',
+                  'the discovery loop ranges over %s, not over all 4^K indices' % show(it),
+                  inputs='the k-mers the loop skips')
+        idx_ok = tgt[0] == 'sub' and tgt[2] == i
+        run.check(idx_ok, 'R-MASK', f, 'store-index', nd.lineno, 'mask[i] is stored for the loop index i',
+                  'the verdict is stored at %s, not at the loop index' % show(tgt), inputs='every k-mer')
+        arg = val[2][0] if val[2] else (val[3][0][1] if val[3] else None)
+        ok = arg is not None and call_name(arg) and call_name(arg).endswith('.number_to_dna') \
+            and strip_int(call_arg(arg, 0, 'decimal_number')) == i and call_arg(arg, 1, 'dna_length') == K
+        run.check(bool(ok), 'R-MASK', f, 'verdict-on-own-kmer', nd.lineno, 'verdict is taken on number_to_dna(i, K)',
+                  'the filter judges %s, not the k-mer of the index being stored' % (show(arg) if arg else None),
+                  inputs='every k-mer')
+    nd = verdict_stores[0][0]
+    others = [s for s in stores if s[1].name == mask_name and s not in verdict_stores]
     run.check(not others, 'R-MASK', f, 'single-writer', nd.lineno, 'no other store into the mask',
               'the mask is also written at line %s' % (others[0][0].lineno if others else ''), inputs='all filters')
     rets = [r for r in f.stmts(ast.Return)]
